@@ -87,7 +87,8 @@ def ob_memo(w, P):
         mc = DjangoLike(w, L)
         dj = L.djangocache.DjangoCache
         timeout = {'none': None, 'zero': 0, 'pos': ev}[ecls]
-        f = dj.memoize(mc, name='f', timeout=timeout, typed=typed)(func)
+        ver = [None, 2][int(w.int('version_i', 0, 1))]
+        f = dj.memoize(mc, name='f', timeout=timeout, typed=typed, version=ver)(func)
     elif variant == 'stampede':
         mc = MemoCache(w, L)
         rec = L.recipes
